@@ -24,7 +24,10 @@ Comparable(a, b) == a[1] = b[1] /\ a[1] \in {"I", "F", "S", "Y", "X", "seq", "tr
 Init == l = 1 /\ H = [x \in {} |-> 0]
 Plain == (IsEv("reset") \/ IsEv("end")) /\ UNCHANGED H
 
-Cmp == /\ IsEv("cmp") /\ E.exc = "" /\ UNCHANGED H
+(* plain structs of different types (here: different sizes) have no order: TypeError, never a memcmp across types *)
+Alien(a, b) == a[1] = "X" /\ b[1] = "X" /\ Len(a[2]) # Len(b[2])
+CmpAlien == IsEv("cmp") /\ Alien(E.a, E.b) /\ E.exc = "TypeError" /\ UNCHANGED H
+Cmp == /\ IsEv("cmp") /\ ~Alien(E.a, E.b) /\ E.exc = "" /\ UNCHANGED H
        /\ (Mode = "cmp" /\ Comparable(E.a, E.b)) =>
             LET s == RefCmp(E.a, E.b) IN
             /\ E.r = s                                                   \* the order of the values themselves
@@ -49,7 +52,7 @@ Swap == /\ IsEv("swap") /\ E.exc = "" /\ UNCHANGED H
 Same == /\ IsEv("same") /\ E.exc = "" /\ UNCHANGED H
         /\ (Mode = "hash" => (E.eq = 1 /\ E.eqr = 1 /\ E.h = E.h2))
 
-Next == Plain \/ Cmp \/ Hash \/ Copy \/ Swap \/ Same
+Next == Plain \/ Cmp \/ CmpAlien \/ Hash \/ Copy \/ Swap \/ Same
 Spec == Init /\ [][Next]_vars
 Accepted == LET d == TLCGet("stats").diameter IN
             /\ PrintT(<<"TRACE_MATCHED", d - 1, Len(T)>>)
